@@ -32,6 +32,8 @@ type NodeSpec struct {
 	MaxSendBlocks uint64 `json:"maxSendBlocks"` // 0 = default
 	MaxInbound    int    `json:"maxInbound"`
 	MaxOutbound   int    `json:"maxOutbound"`
+	MaxInflightSubnet int `json:"maxInflightSubnet"` // WithMaxInflightRPCsPerSubnet on this node
+	MaxInflight       int `json:"maxInflight"`       // WithMaxInflightRPCs (per peer)
 }
 
 // Scenario is one network of honest nodes (property C12).
@@ -252,7 +254,8 @@ func RunConverge(sc Scenario, slot int) (out *Outcome) {
 	for i, ns := range sc.Nodes {
 		ip := fmt.Sprintf("127.%d.%d.%d", 1+slot%200, 1+(slot/200)%250, 10+i)
 		addrRole[ip] = "honest:" + ns.Name
-		o := NodeOpts{Name: ns.Name, IP: ip, Tip: tips[i], MaxSendBlocks: ns.MaxSendBlocks, MaxInbound: ns.MaxInbound, MaxOutbound: ns.MaxOutbound}
+		o := NodeOpts{Name: ns.Name, IP: ip, Tip: tips[i], MaxSendBlocks: ns.MaxSendBlocks, MaxInbound: ns.MaxInbound, MaxOutbound: ns.MaxOutbound,
+			MaxInflightSubnet: ns.MaxInflightSubnet, MaxInflight: ns.MaxInflight}
 		if ns.Checkpoint > 0 {
 			// the checkpoint is the block at that height on the node's own chain
 			chainBlocks := w.ChainOf(tips[i])
@@ -463,6 +466,16 @@ func RunConverge(sc Scenario, slot int) (out *Outcome) {
 		}
 	}
 	annWG.Wait()
+	// quiescence audit of the in-flight RPC accounting (only meaningful once the network is at rest)
+	if out.Converged {
+		for i, n := range nodes {
+			m, sum := n.InflightAtRest(4 * time.Second)
+			n.RecordIdle(sum)
+			if sum != 0 {
+				fail("converge:inflight-leak", "node %s is at rest but its per-subnet in-flight RPC counters are %v (a counter is the number of running handlers)", sc.Nodes[i].Name, m)
+			}
+		}
+	}
 	for i, n := range nodes {
 		out.Tips[sc.Nodes[i].Name] = w.Name(n.CM.Tip().ID)
 		lg.add("peers of %s: %s", sc.Nodes[i].Name, peerSummary(n))
